@@ -24,10 +24,11 @@ SHAPES = {
                       {'token': 'あ', 'cands': [[], ['N', 'V']], 'char': [], 'type': []}]},
 }
 BOUNDS = {
-    'quick': {'model shapes': sorted(SHAPES), 'weights': 'symbolic i16 weights, symbolic bias', 'trailing bytes': '0..2 symbolic bytes',
+    'quick': {'model shapes': sorted(SHAPES) + ['12 random structurally valid shapes drawn from VERIF_SEED'], 'weights': 'symbolic i16 weights, symbolic bias', 'trailing bytes': '0..2 symbolic bytes',
               'truncation': 'every cut point of the serialised stream at header-byte and token granularity (incl. lengths 0..24, shorter than the header)',
               'header': '25 symbolic header bytes', 'faults': 'reader/writer failing at its k-th call, every k'},
-    'thorough': {'model shapes': sorted(SHAPES), 'weights': 'symbolic', 'trailing bytes': '0..3', 'truncation': 'every cut point', 'header': '25 symbolic bytes', 'faults': 'every k'},
+    'thorough': {'model shapes': sorted(SHAPES) + ['240 random structurally valid shapes drawn from VERIF_SEED (windows 1..5, up to 3 char / 2 type n-grams, 2 dictionary words, 2 tag models)'],
+                 'weights': 'symbolic', 'trailing bytes': '0..3', 'truncation': 'every cut point', 'header': '25 symbolic bytes', 'faults': 'every k'},
 }
 OUTSIDE = ('the byte-level format of bincode (varint encoding, truncation INSIDE an encoded primitive) is not modelled: bincode is a typed token stream by contract '
            '(DESIGN.md appendix B); zstd; model shapes outside the catalogue')
@@ -41,14 +42,27 @@ MUST_REACH = ['decoded model equals the original', 're-encoding gives the identi
               'every proper prefix is rejected', 'foreign header is rejected', 'failing reader/writer yields an error']
 
 
+def shapes(tier, seed):
+    sh = dict(SHAPES)
+    import random
+    rnd = random.Random(seed * 131 + 7)
+    for k in range(12 if tier == 'quick' else 240):
+        sh['random%03d' % k] = P.random_shape(rnd, max_w=3 if tier == 'quick' else 5)
+    return sh
+
+
 def jobs(tier, seed):
     js = []
-    for name in sorted(SHAPES):
+    for name in sorted(shapes(tier, seed)):
         for tr in range(0, (2 if tier == 'quick' else 3) + 1):
             js.append({'name': 'roundtrip/%s/t%d' % (name, tr), 'kind': 'roundtrip', 'shape': name, 'trailing': tr})
         js.append({'name': 'prefix/%s' % name, 'kind': 'prefix', 'shape': name})
         js.append({'name': 'faults/%s' % name, 'kind': 'faults', 'shape': name})
     js.append({'name': 'header', 'kind': 'header', 'shape': 'plain'})
+    allsh = shapes(tier, seed)
+    for j in js:
+        if j['shape'] not in SHAPES:
+            j['shape_def'] = allsh[j['shape']]
     return js
 
 
@@ -87,7 +101,7 @@ def elems_equal(e, xs, ys):
 
 def make(e, progs, job):
     prog = progs['core']
-    shape = SHAPES[job['shape']]
+    shape = job.get('shape_def') or SHAPES[job['shape']]
     st = {}
 
     def harness(e):
